@@ -12,6 +12,11 @@ fn sets() -> Vec<Vec<u32>> {
   v.push((0..70_000).collect()); // run-heavy, > 65536: two containers
   v.push((0..5000).map(|i| i * 65_537).collect()); // sparse across many containers
   v.push(vec![3, 9, 254, 65536]);
+  // short dense runs: their compressed form contains the two characters (- and _) in which Base64Url and Base64 differ
+  for n in [12u32, 16, 17, 24, 33, 48, 64] {
+    v.push((0..n).collect());
+    v.push((0..n).map(|i| i * 3 + 1).collect());
+  }
   // container-count boundaries of the format: one index in each of the first 65535 / all 65536 high-16-bit blocks, and the last block alone
   v.push((0..65_535u32).map(|i| i << 16).collect());
   v.push((0..65_536u32).map(|i| (i << 16) | (i & 0xffff)).collect());
@@ -55,6 +60,35 @@ pub fn bitmap(cex: &Value) -> Result<String, String> {
         match RevocationBitmap::try_from(&legacy_svc) {
           Ok(back) if back == b => {}
           _ => log.push(format!("[legacy] legacy double-encoded endpoint with {} entries does not decode", s.len())),
+        }
+      }
+    }
+    // [iota-wrapper]: the IotaDocument entry points against the CoreDocument ones, mixed batches included
+    {
+      use identity_iota_core::{IotaDID, IotaDocument, NetworkName};
+      let net = NetworkName::try_from("smr").unwrap();
+      let idid = IotaDID::new(&[7u8; 32], &net);
+      let isid = idid.to_url().join("#rev").unwrap();
+      let mut idoc = IotaDocument::new_with_id(idid.clone());
+      let svc = RevocationBitmap::new().to_service(isid.clone()).unwrap();
+      let _ = idoc.insert_service(svc);
+      let mut model: std::collections::BTreeSet<u32> = Default::default();
+      let steps: [(bool, &[u32]); 8] = [(true, &[1, 2, 3]), (false, &[2, 9]), (true, &[2, 40]), (false, &[1, 40, 77]), (false, &[3]), (true, &[3, 3, 5]), (false, &[5, 6, 7, 3]), (false, &[100])];
+      for (revoke, idx) in steps {
+        let res = if revoke { idoc.revoke_credentials(&isid, idx) } else { idoc.unrevoke_credentials(&isid, idx) };
+        for i in idx {
+          if revoke { model.insert(*i); } else { model.remove(i); }
+        }
+        match (res, idoc.core_document().resolve_revocation_bitmap((&isid).into())) {
+          (Ok(()), Ok(b)) => {
+            for i in 0..120u32 {
+              if b.is_revoked(i) != model.contains(&i) {
+                log.push(format!("[iota-wrapper] after {} {idx:?}: index {i} revoked = {}, expected {}", if revoke { "revoke" } else { "unrevoke" }, b.is_revoked(i), model.contains(&i)));
+                break;
+              }
+            }
+          }
+          (r, b) => log.push(format!("[iota-wrapper] {} {idx:?} failed: {:?} / bitmap readable: {}", if revoke { "revoke" } else { "unrevoke" }, r.err().map(|e| e.to_string()), b.is_ok())),
         }
       }
     }
